@@ -2,6 +2,7 @@
 package c08
 
 import (
+	"time"
 	"bytes"
 	"fmt"
 	"sort"
@@ -169,7 +170,34 @@ type outcome struct {
 	accepted bool
 }
 
+// parseLimit: "bounded" has a second meaning besides growth: the call returns at all. A parse of a few KB of text
+// takes milliseconds; after parseLimit the call is given up for lost (its goroutine cannot be stopped and keeps
+// running, which is why the first such verdict ends the sub-check).
+const parseLimit = 30 * time.Second
+
+type hung struct{ after time.Duration }
+
 func parseOnce(ctxName string, input string) (q *cypher.RegularQuery, err error, panicked any) {
+	type result struct {
+		q        *cypher.RegularQuery
+		err      error
+		panicked any
+	}
+	done := make(chan result, 1)
+	go func() {
+		var r result
+		r.q, r.err, r.panicked = parseOnceInline(ctxName, input)
+		done <- r
+	}()
+	select {
+	case r := <-done:
+		return r.q, r.err, r.panicked
+	case <-time.After(parseLimit):
+		return nil, nil, hung{parseLimit}
+	}
+}
+
+func parseOnceInline(ctxName string, input string) (q *cypher.RegularQuery, err error, panicked any) {
 	defer func() {
 		if p := recover(); p != nil {
 			panicked = p
@@ -211,6 +239,9 @@ func oracle(c Case) (evid.Info, error) {
 	blank := strings.TrimSpace(input) == ""
 	for _, ctxName := range []string{"plain", "default"} {
 		q, err, p := parseOnce(ctxName, input)
+		if h, isHung := p.(hung); isHung {
+			return info, fmt.Errorf("ParseCypher(%s context) did not return within %s on %q", ctxName, h.after, c.Preview)
+		}
 		if p != nil {
 			return info, fmt.Errorf("ParseCypher(%s context) panicked on %q: %v", ctxName, c.Preview, p)
 		}
